@@ -9,13 +9,18 @@ advertised digest length, refusal of L > 8|M| (one-shot, and on the final piece 
 SHA-0) for whole-byte lengths, and for ragged lengths independence from the bits after position L."""
 from props.common import *
 from props import hashcommon as HC
+from props.parts import c01_carry as CARRY
 
 ID = 'C01'
 LEAN_PROOFS = ['Proofs.C01', 'Proofs.C01_Consts']
 GEN_ITEMS = ['Hashes']
 RULE = ('op lines `hash <alg> <msg> <bitlen|None>` over the ten algorithms: every byte length 0..2 blocks+2, every L mod 8 around the '
         'spill boundary (block-1-2*word bytes), block and two-block boundaries, 3-5 blocks seeded, L=None, L=0, L>8|M|, trailing data '
-        'beyond L; `hashseq` lines with a preset bit counter so that the length field needs more than one 32/64-bit word; '
+        'beyond L; CARRY BOUNDARIES: for every algorithm messages constructed from the standard\'s IV and round constants (plain-integer round '
+        'functions in parts/c01_carry.py) whose word r (or r-1) makes ONE word addition of round r = 0..3 (thorough: 0..15) - every prefix of the '
+        'left-to-right sums a+f+W+K, b+rol(..), rol(a,5)+f+e+K+W, h+S1(e)+Ch+K+W, d+T1, T1+T2 that a message word can steer, and the three sums of the SHA-2 '
+        'schedule words 16..19 (thorough: ..23) - sum to exactly 2^w, 2^w-1 and 2^w+1 before reduction (w = 32/64), alone and with a tail appended: the carry-out '
+        'of every word addition of round 0 that involves the message is exercised at its boundary; `hashseq` lines with a preset bit counter so that the length field needs more than one 32/64-bit word; '
         '`hashseq` lines `upd <1..3 blocks> | fin <piece> <L>` with L beyond the piece (8n+1, +7, +8, bits fed+8n-1, bits fed+8n, +1): must be refused; '
         '`hashcalls` lines: ONE object of the library per line hashes several messages in a row (first messages ending without / with a '
         'spill block, on a block boundary, over two blocks; after a refused call, after a dangling update(padding=False), after a streamed '
@@ -224,6 +229,10 @@ def cases(tier, rng):
     if tier == 'search':
         while True:
             alg = rng.choice(HC.NAMES); B = HC.blocklen(alg)
+            if rng.randrange(8) == 0:
+                cm = list(CARRY.carry_messages(alg, rng, 16, 8, tails=False))
+                yield hline(alg, rng.choice(cm)[0], None), 'search'
+                continue
             if rng.randrange(4) == 0:
                 k = rng.randrange(1, 4); n = rng.choice([0, 3, rng.randrange(0, B + 2)])
                 L = 8 * n + rng.choice([1, 7, 8, rng.randrange(1, 8 * B * k + 1), 8 * B * k, 8 * B * k - 1])
@@ -240,8 +249,12 @@ def cases(tier, rng):
             yield hline(alg, m, L), 'search'
         return
     thorough = tier == 'thorough'
+    CARRY.selftest()
     for alg in HC.NAMES:
         B, c = HC.blocklen(alg), HC.cntlen(alg)
+        # the carry-out of the word additions of the first rounds (and of the SHA-2 schedule) on its boundary
+        for m, tag in CARRY.carry_messages(alg, rng, 16 if thorough else 4, 8 if thorough else 4):
+            yield hline(alg, m, None), tag
         # every byte length 0 .. 2 blocks + 2
         for n in range(0, 2 * B + 3):
             yield hline(alg, rnd(rng, n), None), 'bytes:0..2B+2'
